@@ -75,11 +75,13 @@ func (cm *FairMQ) Commit(evt string, src string, dst string, args map[string]str
 	case "EXIT":
 		var state string
 		if src == "CONFIGURED" { // We need to RESET first
-			state, err = cm.doReset(evt, src, dst, args)
+			// the reset part takes the device to STANDBY (IDLE), END is then sent from there
+			state, err = cm.doReset(evt, src, "STANDBY", args)
 			if state != "STANDBY" {
 				finalState = state
 				break
 			}
+			src = "STANDBY"
 		}
 		finalState, err = cm.DoTransition(EventInfo{fairmq.EvtEND, cm.fmqStateForState(src), cm.fmqStateForState(dst), args})
 		finalState = cm.stateForFmqState(finalState)
